@@ -866,7 +866,13 @@ impl Model for ArenaModel {
 
     fn alt_answers(&self) -> Vec<Answer> {
         match self.profile {
-            Profile::Fallible | Profile::Ledger => vec![Answer::Refuse, Answer::GrantV(12)],
+            Profile::Fallible | Profile::Ledger | Profile::Limit => {
+                if self.thorough {
+                    vec![Answer::Refuse, Answer::GrantV(12), Answer::RefuseRest, Answer::RefuseAbove(9), Answer::RefuseAbove(12), Answer::RefuseAbove(16)]
+                } else {
+                    vec![Answer::Refuse, Answer::GrantV(12), Answer::RefuseRest, Answer::RefuseAbove(12)]
+                }
+            }
             Profile::Core | Profile::AllocApi => vec![Answer::Refuse, Answer::GrantV(5), Answer::GrantV(12)],
             _ => vec![Answer::Refuse, Answer::GrantV(12)],
         }
